@@ -8,6 +8,12 @@
      affil prog (k, j)           the triggers of the pair: result of S_j.M_m -> result of I_k.M_m (covariant),
                                  parameter i of I_k.M_m -> parameter i of S_j.M_m (contravariant), for every method m
      W prog ALLs (k, j)          those triggers are among the triggers ALLs of the program
+     SConvI x y k k2             x = y where y has interface type I_k2 and x interface type I_k (the methods of I_k are
+                                 the first methods of I_k2): an interface-to-interface conversion
+     iaffil prog (k, k2)         the triggers of that pair: result of I_k2.M_m -> result of I_k.M_m, parameter i of
+                                 I_k.M_m -> parameter i of I_k2.M_m; IW prog ALLs (k, k2): they are among ALLs
+     L prog ALLs k j             S_j is linked to I_k: a nil-able result of each of its methods makes the interface
+                                 method's result nil-able, a nil-able parameter of the interface method the method's
      nu ALLs s                   site s is nil-able in the constraint system of ALLs (a nil source reaches it) *)
 From Coq Require Import List Bool Arith.
 From NM Require Import Engine EngineSpec MiniGo Flow Guard.
@@ -22,18 +28,34 @@ Proof. exact convs_witnessed. Qed.
 Print Assumptions C09_conversions_are_collected.
 
 (* a concrete method that can return nil makes the interface method's result nil-able ... *)
-Theorem C09_result_flow : forall prog ALLs k j m f fd,
-  W prog ALLs (k, j) -> nth_error (nth j (p_impls prog) []) m = Some f -> nth_error (p_funcs prog) f = Some fd ->
+Theorem C09_result_flow : forall prog ALLs k j m np f fd,
+  W prog ALLs (k, j) -> nth_error (isig prog k) m = Some np ->
+  nth_error (nth j (p_impls prog) []) m = Some f -> nth_error (p_funcs prog) f = Some fd ->
   nu ALLs (SResult f) -> nu ALLs (SIResult k m).
 Proof. exact W_result. Qed.
 Print Assumptions C09_result_flow.
 
 (* ... and nil passed through the interface method's parameter reaches the implementation's parameter *)
-Theorem C09_param_flow : forall prog ALLs k j m f fd i,
-  W prog ALLs (k, j) -> nth_error (nth j (p_impls prog) []) m = Some f -> nth_error (p_funcs prog) f = Some fd ->
+Theorem C09_param_flow : forall prog ALLs k j m np f fd i,
+  W prog ALLs (k, j) -> nth_error (isig prog k) m = Some np ->
+  nth_error (nth j (p_impls prog) []) m = Some f -> nth_error (p_funcs prog) f = Some fd ->
   S i < f_nparams fd -> nu ALLs (SIParam k m i) -> nu ALLs (SParam f (S i)).
 Proof. exact W_param. Qed.
 Print Assumptions C09_param_flow.
+
+(* interface-to-interface conversions are collected too, and keep both directions of the flow: a value that is
+   linked to I_k2 and is used as an I_k is linked to I_k *)
+Theorem C09_interface_conversions_are_collected : forall prog afuel ctr pk r,
+  analyze_program afuel ctr pk prog = Some r ->
+  forall g fd kk, nth_error (p_funcs prog) g = Some fd -> In kk (iconvs_of (f_body fd)) -> IW prog (all_strigs r) kk.
+Proof. exact iconvs_witnessed. Qed.
+Print Assumptions C09_interface_conversions_are_collected.
+
+Theorem C09_interface_conversion_keeps_links : forall prog ALLs k k2 j,
+  IW prog ALLs (k, k2) -> prefix_b (isig prog k) (isig prog k2) = true ->
+  L prog ALLs k2 j -> Conf prog k2 j -> L prog ALLs k j /\ Conf prog k j.
+Proof. exact IW_L. Qed.
+Print Assumptions C09_interface_conversion_keeps_links.
 
 (* a program with interfaces that analyses clean never panics -- in particular not on a value that travelled through
    dynamic dispatch, nor on a nil interface value (this is C01's theorem: the model it is proved for includes
@@ -67,3 +89,23 @@ Example C09_affiliation_needed :
     analyze_pkg all_exported 200 [] [] (map etrig (r_decl r ++ concat (r_funcs r) ++ concat (r_dups r))) = Finished res /\
     r_conflicts res = [].
 Proof. exact iface_affiliation_needed. Qed.
+
+(* interface-to-interface: the value is made as an I1 and used as an I0 (same method); both flows are reported and
+   both panics are real; the variant without nil meets every premise of the soundness theorem; without the triggers
+   of the (I0, I1) pair the flows are lost *)
+Example C09_interface_conversion_flows_reported :
+  exists r res, analyze_program 8 no_ctr one_pkg (ex_iface2 ANil ANil) = Some r /\ wf_program (ex_iface2 ANil ANil) = true /\
+    analyze_pkg all_exported 200 [] [] (all_triggers r) = Finished res /\ length (r_conflicts res) = 2 /\
+    panic_of (run_program (ex_iface2 ANil ANil) 20 []) = Some 3 /\ panic_of (run_program (ex_iface2 ANew ANil) 20 []) = Some 2.
+Proof. exact iface2_flows_reported. Qed.
+Example C09_interface_conversion_example :
+  exists r res, analyze_program 8 no_ctr one_pkg (ex_iface2 ANew ANew) = Some r /\ r_gsafe r = true /\ r_clocal r = true /\ r_nodel r = true /\
+    wf_program (ex_iface2 ANew ANew) = true /\ impls_plain (ex_iface2 ANew ANew) no_ctr = true /\
+    analyze_pkg all_exported 200 [] [] (all_triggers r) = Finished res /\ r_conflicts res = [].
+Proof. exact iface2_ok_premises. Qed.
+Example C09_interface_link_needed :
+  exists r res, analyze_program 8 no_ctr one_pkg (ex_iface2 ANil ANil) = Some r /\
+    analyze_pkg all_exported 200 [] []
+      (map etrig (r_decl r ++ concat (r_funcs r) ++ concat (r_dups r) ++ affil (ex_iface2 ANil ANil) (1, 0))) = Finished res /\
+    r_conflicts res = [].
+Proof. exact iface2_link_needed. Qed.
